@@ -166,6 +166,11 @@ class Factoring:
                         _set(self.inl, path, pre + body + post)
                         self.forms.append("substring:regex-escapes-in-body")
                     _set(tree, path, pre + name + post)
+                    if kind == "rule" and rng.random() < 0.2:
+                        # the same string macro written TWICE in one scalar (a name such as "\\[@any\\+@any\\*8\\]"): both places get the body
+                        _set(tree, path, pre + name + post + name)
+                        _set(self.inl, path, pre + body + post + body)
+                        self.forms.append("substring:twice-in-one-scalar")
                     self.macros.append({"name": name, "pattern": body})
                     self.forms.append("substring")
                     return True
